@@ -13,14 +13,15 @@ EXTENDS IPFSConn, Json, IOUtils
 
 Recs == ndJsonDeserialize(IOEnv.TRACE_FILE)
 
-InOf(r) == [op |-> r.in.op, mode |-> r.in.mode, upd |-> r.in.upd, norig |-> r.in.norig, ohang |-> r.in.ohang, cancel |-> r.in.cancel,
+InOf(r) == [op |-> r.in.op, mode |-> r.in.mode, d |-> r.in.d, pheld |-> [c1 |-> r.in.pheld.c1, c2 |-> r.in.pheld.c2], upd |-> r.in.upd, norig |-> r.in.norig, ohang |-> r.in.ohang, cancel |-> r.in.cancel,
             prior |-> [c1 |-> r.in.prior.c1, c2 |-> r.in.prior.c2], intf |-> r.in.intf]
-ReqOf(q) == [ep |-> q.ep, cid |-> q.cid, typ |-> q.typ, rec |-> q.rec, from |-> q.from, unpin |-> q.unpin,
+ReqOf(q) == [ep |-> q.ep, cid |-> q.cid, typ |-> q.typ, rec |-> q.rec, from |-> q.from, depth |-> q.depth, prog |-> q.prog, unpin |-> q.unpin,
              beh |-> q.beh, eff |-> q.eff, ans |-> q.ans]
 \* the recorded observation in the shape the predicates expect
 ObsOf(r) == [in  |-> InOf(r),
              out |-> [res |-> r.out.res, status |-> r.out.status,
                       pins |-> [c1 |-> r.out.pins.c1, c2 |-> r.out.pins.c2],
+                      held |-> [c1 |-> r.out.held.c1, c2 |-> r.out.held.c2],
                       reqs |-> [j \in DOMAIN r.out.reqs |-> ReqOf(r.out.reqs[j])],
                       swarm |-> Range(r.out.swarm), abandoned |-> r.out.abandoned]]
 
